@@ -260,6 +260,7 @@ func cmdC18(args []string) {
 		if err != nil {
 			fatal("C18 config %s: %v", kc.name, err)
 		}
+		noise(m)
 		h := m.Wrap(nopHandler)
 		for _, dbg := range []bool{false, true} {
 			m.SetDebug(dbg)
